@@ -22,13 +22,42 @@ func UniqueName(prefix string) string {
 }
 
 // Compile compiles src with the real compiler.
+//
+// With default options the compiler comes from a pool of long-lived compilers
+// (never used by two goroutines at once), as the runtime keeps one compiler for
+// all the programs it ever loads: a compile must not depend on what the same
+// compiler compiled before. A witness that does not reproduce from the program
+// alone points at exactly that.
 func Compile(name, src string, opts ...compiler.Option) (*code.Object, error) {
+	if len(opts) == 0 {
+		var c *compiler.Compiler
+		select {
+		case c = <-pool:
+		default:
+			var err error
+			if c, err = compiler.New(); err != nil {
+				return nil, err
+			}
+		}
+		defer func() {
+			if recover() != nil {
+				panic(fmt.Sprintf("compiler panicked on program %q", src))
+			}
+			select {
+			case pool <- c:
+			default:
+			}
+		}()
+		return c.Compile(name, strings.NewReader(src))
+	}
 	c, err := compiler.New(opts...)
 	if err != nil {
 		return nil, err
 	}
 	return c.Compile(name, strings.NewReader(src))
 }
+
+var pool = make(chan *compiler.Compiler, 32)
 
 // Prog is one compiled program with its VM.
 type Prog struct {
